@@ -179,6 +179,12 @@ class SymBytesList(bytes):
         out = ""
         for i, b in enumerate(self.data):
             if not bool(b < 128):
+                # the bytes 248-255 are never part of a UTF-8 sequence: each is an error of its own
+                if errors == "ignore":
+                    continue
+                if errors == "replace":
+                    out = out + "\ufffd"
+                    continue
                 raise UnicodeDecodeError("utf-8", b"\xff", 0, 1, "invalid start byte [symbolic, position %d]" % i)
             out = out + (chr(b) if isinstance(b, int) else cmodels.sym_chr(b))
         return out
@@ -250,8 +256,9 @@ class Streams(Harness):
 
     @property
     def bounds(self):
-        return "entry %s, label %s followed by %d symbolic bytes (0-255)%s" % (
-            self.entry, self.label, self.n, (", stream positioned after a header of %d symbolic bytes" % self.offset)
+        return "entry %s, label %s%s followed by %d symbolic bytes (0-255)%s" % (
+            self.entry, self.label, " whose END has no line end after it" if getattr(self, "fused", False) else "",
+            self.n, (", stream positioned after a header of %d symbolic bytes" % self.offset)
             if getattr(self, "offset", 0) else "")
 
     def inputs(self, ctx):
@@ -269,7 +276,8 @@ class Streams(Harness):
 
     def prop_fn(self, L, inp):
         tail = list(inp["tail"])
-        label = LABELS[self.label] + "END\n"
+        fused = getattr(self, "fused", False)
+        label = LABELS[self.label] + ("END" if fused else "END\n")
         data = [ord(c) for c in label] + tail
         if L.pkg == "pvl" and Ctx.cur is not None and getattr(L.pvl, "io", None) is io:
             L.pvl.io = IOShim()
@@ -308,6 +316,33 @@ class Streams(Harness):
         if self.entry == "get_text_text":
             got = L.pvl.get_text_from(TextStream(data, False))
             return Outcome("agree", str_eq(got, exp_text), {"text": got})
+        if fused:
+            # the bytes directly after END may continue the word: what every entry point must make of the data is
+            # what loads makes of the decodable prefix (a module, or LexerError/ParseError)
+            def outcome(fn):
+                try:
+                    return fn()
+                except (L.exceptions.LexerError, L.exceptions.ParseError) as e:
+                    return type(e).__name__
+            # ... which may spell a parameter name: containers that keep only the item list
+            from .common import list_classes
+            M, G, O = list_classes(L)
+            kw = dict(module_class=M, group_class=G, object_class=O)
+            expect = outcome(lambda: L.pvl.loads(exp_text, **kw))
+            if self.entry == "loads_bytes":
+                arg = SymBytesList(data) if any(not isinstance(b, int) for b in data) else bytes(data)
+                call = lambda: L.pvl.loads(arg, **kw)
+            else:
+                call = lambda: L.pvl.load(BinStream(data) if self.entry == "load_binary" else TextStream(data, False), **kw)
+            try:
+                m = outcome(call)
+            except UnicodeDecodeError as e:
+                return Outcome("raised", False, {"exception": "UnicodeDecodeError"})
+            if isinstance(expect, str) or isinstance(m, str):
+                return Outcome("agree", B(isinstance(expect, str) and isinstance(m, str) and expect == m),
+                               {"expected": expect if isinstance(expect, str) else snap(expect),
+                                "got": m if isinstance(m, str) else snap(m)})
+            return Outcome("agree", same_module(m, expect), {"module": snap(m), "expected": snap(expect)})
         expect = L.pvl.loads(label)
         if self.entry == "loads_bytes":
             arg = SymBytesList(data) if any(not isinstance(b, int) for b in data) else bytes(data)
@@ -429,6 +464,9 @@ def obligations(tier):
     for entry in ("decode_by_char", "get_text_binary", "get_text_text", "load_binary", "load_text", "loads_bytes"):
         for n in ((0, 1, 3) if quick else (0, 1, 2, 3, 4, 6)):
             obs.append(Streams(entry=entry, label="flat", n=n))
+    for entry in ("load_binary", "load_text", "loads_bytes"):
+        for n in ((2, 3) if quick else (1, 2, 3, 4)):
+            obs.append(Streams(entry=entry, label="flat", n=n, fused=True))
     for d in ("PVL", "ODL", "PDS3", "ISIS"):
         for mode in ("text", "binary", "textfile"):
             for shape in ("single", "group"):
